@@ -339,17 +339,17 @@ assignment, fetch, receiver forwarding along chains of any length, value-receive
 copying values with or without undo, the results of a run) or any edit preserves "no strictly
 hinted channel holds a value its hint rejects".  Switching strict hints **on** is not an
 assignment path and is excluded (`Op.noActivate`); switching them off is included. -/
-theorem C03_no_bad_store_step (P : Params) (fuel : Nat) (s : S) (op : Data.Op) (hop : op.noActivate)
-    (h : Good P s) : Good P (step P fuel s op).1 :=
-  step_pres (good_pres P) fuel s op (Or.inr hop) h
+theorem C03_no_bad_store_step (P : Params) (hcopy : CopyOk P) (fuel : Nat) (s : S) (op : Data.Op)
+    (hop : op.noActivate) (h : Good P s) : Good P (step P fuel s op).1 :=
+  step_pres (good_pres P hcopy) fuel s op (Or.inr hop) h
 
 /-- ... hence after every history of such operations, of any length, starting from a fresh
 world, every strict hinted channel holds `NOT_DATA` or a value its hint accepts -/
-theorem C03_no_bad_store (P : Params) (fuel : Nat) (kind owner hinted strict ins outs) (ops : List Data.Op)
-    (hops : ∀ op ∈ ops, op.noActivate) :
+theorem C03_no_bad_store (P : Params) (hcopy : CopyOk P) (fuel : Nat) (kind owner hinted strict ins outs)
+    (ops : List Data.Op) (hops : ∀ op ∈ ops, op.noActivate) :
     let w := run P fuel (init kind owner hinted strict ins outs) ops
     ∀ ch, w.strict ch = true → w.hinted ch = true → w.val ch = .nd ∨ P.admits ch (w.val ch) = true :=
-  run_pres (good_pres P) fuel _ ops (Or.inr hops) (init_good P kind owner hinted strict ins outs)
+  run_pres (good_pres P hcopy) fuel _ ops (Or.inr hops) (init_good P kind owner hinted strict ins outs)
 
 /-- an assignment that is refused stores nothing anywhere — not in the channel, not in any
 receiver down the chain -/
